@@ -8,6 +8,7 @@ import (
 
 	"github.com/miekg/dns"
 	"github.com/semihalev/sdns/internal/dnsutil"
+	"github.com/semihalev/sdns/internal/ecs"
 	"github.com/semihalev/sdns/middleware"
 	"github.com/semihalev/sdns/middleware/resolver/dnssec"
 	"github.com/semihalev/zlog/v2"
@@ -148,6 +149,12 @@ func (pq *PrefetchQueue) processPrefetch(req PrefetchRequest) {
 	// from the copy (it is the cache key and the validation opt-out).
 	if opt := prefetchReq.IsEdns0(); opt != nil {
 		opt.SetDo(true)
+		// Only shared entries are refreshed (PrefetchEligible gates scoped
+		// ones out), and a shared entry is refreshed on behalf of every
+		// client. The subnet of whichever client happened to trigger the
+		// refresh must not ride on it: the authority would tailor the answer
+		// to that subnet and the result would replace what everyone is served.
+		opt.Option = withoutClientSubnet(opt.Option)
 	} else {
 		prefetchReq.SetEdns0(dnsutil.DefaultMsgSize, true)
 	}
@@ -170,6 +177,12 @@ func (pq *PrefetchQueue) processPrefetch(req PrefetchRequest) {
 		return
 	}
 	if resp == nil {
+		return
+	}
+	if _, scoped := ecs.ReadResponseScope(resp); scoped && !req.Entry.scoped() {
+		// The authority declared a non-zero scope for this answer. It may be
+		// served only inside that scope, so it cannot take over a shared key.
+		zlog.Debug("Prefetch dropped, refreshed answer is scoped", "query", dnsutil.FormatQuestion(req.Request.Question[0]))
 		return
 	}
 
@@ -243,4 +256,16 @@ func releasePrefetchClaim(entry *CacheEntry) {
 	if entry != nil {
 		entry.prefetch.Store(false)
 	}
+}
+
+// withoutClientSubnet drops every EDNS Client Subnet option from opts, in place.
+func withoutClientSubnet(opts []dns.EDNS0) []dns.EDNS0 {
+	keep := opts[:0]
+	for _, o := range opts {
+		if _, isECS := o.(*dns.EDNS0_SUBNET); isECS {
+			continue
+		}
+		keep = append(keep, o)
+	}
+	return keep
 }
